@@ -112,10 +112,10 @@ func (w *Worker) MineKey(s string) bool {
 	return int(h.Sum32()%uint32(w.NShards)) == w.Shard
 }
 
-func (w *Worker) Eval(n int64)        { w.mu.Lock(); w.res.Evaluations += n; w.mu.Unlock() }
-func (w *Worker) AddStates(n int64)   { w.mu.Lock(); w.res.States += n; w.mu.Unlock() }
-func (w *Worker) AddTrans(n int64)    { w.mu.Lock(); w.res.Transitions += n; w.mu.Unlock() }
-func (w *Worker) AddTraces(n int64)   { w.mu.Lock(); w.res.Traces += n; w.mu.Unlock() }
+func (w *Worker) Eval(n int64)         { w.mu.Lock(); w.res.Evaluations += n; w.mu.Unlock() }
+func (w *Worker) AddStates(n int64)    { w.mu.Lock(); w.res.States += n; w.mu.Unlock() }
+func (w *Worker) AddTrans(n int64)     { w.mu.Lock(); w.res.Transitions += n; w.mu.Unlock() }
+func (w *Worker) AddTraces(n int64)    { w.mu.Lock(); w.res.Traces += n; w.mu.Unlock() }
 func (w *Worker) SetExhaustive(b bool) { w.mu.Lock(); w.res.Exhaustive = b; w.mu.Unlock() }
 func (w *Worker) Depth(d int) {
 	w.mu.Lock()
